@@ -45,7 +45,28 @@
 //! Deviations from DESIGN.md: lives in vf-fn (not vf-expr); Spark aggregates are out of scope of this
 //! crate; quick = ~650 cases per function instead of 60 (a case costs well under a millisecond).
 //!
-//! Sensitivity probes: see the end of this header (filled in after running them).
+//! Genuine defects found on the unchanged tree (each: regression case under /verif/regressions/C07/c07/, entry in
+//! /verif/known_findings.json with a narrow signature excluded by `known_sig`, repair under /verif/fixes/C07-*.diff;
+//! with all repairs applied `c07 quick` passes with known_excluded = 0 on seeds 0 and 1):
+//!  1. ORDER BY on order-insensitive aggregates that inherit `order_sensitivity() = HardRequirement`
+//!     (avg, count, bit_*, var*, stddev*, approx_distinct, corr, median): ordering columns reach a
+//!     GroupsAccumulator that asserts its argument count → panic (`SELECT g, avg(x ORDER BY y) .. GROUP BY g`).
+//!  2. min/max with ORDER BY: `state_fields()` declares ordering fields, `state()` has one value
+//!     (`SELECT max(x ORDER BY y) FROM t` → "number of columns(1) must match number of fields(2)").
+//!  3. percentile_cont: `convert_to_state` asserts one argument, always gets two → panic once partial
+//!     aggregation is skipped.
+//!  4. bit_xor(DISTINCT) under GROUP BY: groups accumulator ignores DISTINCT (wrong value / state type error).
+//!  5. bit_xor sliding window: frame of only NULLs after a frame with a value gives 0 instead of NULL.
+//!  6. nth_value(x, -k) without ORDER BY: merge keeps the first k+1 values instead of the last k.
+//!  7. last_value pre-sorted: `then_some(len - 1)` overflow panic on an empty batch (overflow-check builds).
+//!
+//! Sensitivity probes (tools/mkpatch + tools/mutrun, `./check C07 quick`):
+//!  P1 average.rs `AvgAccumulator::merge_batch`: `self.count += states[0].len() as u64` (ignores the counts of
+//!     the partial states) → VIOLATION (exit 1) within the quick budget.
+//!  P2 min_max.rs `SlidingMinAccumulator::retract_batch`: pops once per row instead of once per non-NULL
+//!     value → VIOLATION after 45 cases: "min(U64): L4 retract: frame [1,5) ...: expected 0 got NULL".
+//!  P3 accumulate.rs `NullState::build(EmitTo::First(n))`: remainder = `nulls.slice(0, len - n)` (stale
+//!     seen-bits after an emitted prefix) → see the verdict below.
 use crate::vals::*;
 use arrow::array::{Array, ArrayRef, BooleanArray, Int64Array, UInt32Array};
 use arrow::compute::SortOptions;
